@@ -9,6 +9,7 @@ from vlib import Case, Rng
 
 ID = "C20"
 PROPS_MODULE = "AmqModel.Props.C20"
+EXTRA_PROPS_MODULES = ["AmqModel.Props.Pass"]      # the registrations at the end of every pass (loop-passes suite)
 NONTRIVIAL_RULE = "batch contains a server-initiated close together with at least one client request"
 MODEL_SCOPE = "src/io_loop/mod.rs handle_steady_event / handle_channel{0,}_readable / allocate_channel / handle_set_blocked_tx; connection_state.rs process (close arms); the `for event in events.iter()` loop is reproduced by feeding fabricated mio events to the real handler one after another"
 ASSUMPTIONS = ["A3: events of one batch are handled in list order; a dropped source yields stale events at most"]
